@@ -23,8 +23,8 @@ QUERIES = ["10.1.2.3", "10.1.2.200", "10.1.3.9", "10.2.0.1", "192.168.1.5", "172
 
 
 def gen_route(rng: Rng) -> dict:
-    k = rng.below(20)
-    mask = rng.choice(BADMASKS) if k == 0 else (rng.choice(HOSTMASKS) if k < 4 else rng.choice(MASKS))
+    k = rng.below(40)
+    mask = rng.choice(BADMASKS) if k == 0 else (rng.choice(HOSTMASKS) if k < 8 else rng.choice(MASKS))
     return {"addr": rng.choice(ADDRS), "mask": mask, "nh": rng.choice(HOPS), "metric": rng.choice(METRICS)}
 
 
